@@ -1,7 +1,7 @@
 """C03 - prescribed pressures, flows, lifts and ratios are met exactly."""
 from pvmon import netgen
 from pvmon.monitors import Obs, mon_c03
-from pvmon.props.common import rng_for, run_pipeflow
+from pvmon.props.common import suite_cases, run_suite_case, rng_for, run_pipeflow
 
 MANIFEST = {
     "text": "Held on every returned pipeflow of the seeded workload: every prescribed boundary value (mean ext-grid / pump flow pressure, controller set-points, prescribed mass flows, pressure-pump lift, compressor ratio, pump curve at the reported volume flow, scaled loads) is reproduced within 1e-9 (identities) / 1e-7 bar (lifts, tight solves).",
@@ -32,7 +32,10 @@ def gen_cases(tier, seed):
         kind = "loop" if i % 5 == 4 else "net"
         out.append({"seed": seed, "i": i, "kind": kind, "fluid": FLUIDS[i % len(FLUIDS)],
                     "feats": list(FEATS[(i // 7) % len(FEATS)]), "tight": bool(i % 3 != 2), "numba": bool(i % 2)})
-    return out
+    _cases = out
+    if tier == "thorough":
+        _cases = list(_cases) + suite_cases()
+    return _cases
 
 
 def heating_loop(rng):
@@ -108,6 +111,12 @@ KINDS = ["fixed_pressure", "press_control", "prescribed_flow", "lift_", "compres
 
 
 def run_case(case, ctx):
+    if case.get("kind") == "repo_suite":
+        obs = Obs()
+        n = run_suite_case(case, "C03", obs)
+        rec = {"nontrivial": n > 0, "sample": {"repo_suite_part": case["part"], "pipeflow_calls_observed": n}, "evaluations": max(n, 1)}
+        rec.update(obs.record())
+        return rec
     spec, opts = make(case)
     net = netgen.build(spec)
     obs = Obs()
